@@ -291,20 +291,6 @@ theorem wf_filterQuery (o : Opts) (ho : o.lowercase = false) (h : Option Str) (q
     · simp only [hs, Bool.false_eq_true, if_false] at hkv
       exact hI kv (List.mem_filter.mp hkv).1
 
-/-- the components of `normParts`, spelled out -/
-theorem normParts_eq (puny : Str → Str) (o : Opts) (hsp : o.stripProtocol = true)
-    (hsa : o.stripAuthentication = true) (hq : o.quoted = false) (b : Bool) (p : Parsed) :
-    normParts puny o b p =
-      { scheme := [],
-        netloc := unsplitNetloc none none (p.hostname.map (normHost puny o)) (normPort p.port),
-        path := normPath o p.path
-          (normFragment o.stripFragment (lc o (unquoteFragment p.fragment))) (fixQ o p.query),
-        query := safeSerializeQsl (unquoteQsl (filterQuery o (filterHost puny p.hostname) (fixQ o p.query))),
-        fragment := some (unquoteFragment (normFragment o.stripFragment (lc o (unquoteFragment p.fragment)))) } := by
-  unfold normParts normComps
-  simp only [hsp, hsa, hq, Bool.true_or, if_true, Bool.false_eq_true, if_false, fixedQuery_eq, requote]
-  rfl
-
 theorem normHost_fpOf (puny : Str → Str) (o : Opts) : normHost puny (fpOf o) = normHost puny o := rfl
 theorem fixQ_fpOf (o : Opts) (q : Str) : fixQ (fpOf o) q = fixQ o q := rfl
 
@@ -321,14 +307,16 @@ theorem normParts_fp_of_lower (hS : SortHyp) (puny : Str → Str) (o : Opts)
     ∃ Q, (normParts puny o b p).query = safeSerializeQsl Q ∧ (∀ kv ∈ Q, ItemWf kv) ∧
       (normParts puny (fpOf o) b' (lowerParsed p)).query = safeSerializeQsl (fpItems o.normalizeAmp Q) := by
   obtain ⟨h0, hP, hF, hI⟩ := hL
-  rw [h0, normParts_eq puny (fpOf o) hsp hsa hq, normParts_eq puny o hsp hsa hq]
+  rw [h0, normParts_eq puny (fpOf o) hsp hsa, normParts_eq puny o hsp hsa]
+  have hq' : (fpOf o).quoted = false := hq
+  simp only [hq, hq', Bool.false_eq_true, if_false, requote]
   simp only [normHost_fpOf, fixQ_fpOf]
   have hlc' : (fpOf o).lowercase = true := rfl
   have e1 : ∀ y, lc (fpOf o) y = lower y := fun y => by simp [lc, hlc']
   have e2 : ∀ y, lc o y = y := fun y => by simp [lc, hlc]
   have e3 : (fpOf o).stripFragment = o.stripFragment := rfl
   refine ⟨trivial, ?_, ?_, ?_⟩
-  · rw [normPath_eq (fpOf o) hsts hq, normPath_eq o hsts hq, e1, e2, hP]
+  · rw [normPath_eq (fpOf o) hsts, normPath_eq o hsts, e1, e2, hP]
     rfl
   · rw [e1, e2, hF, e3]
   · refine ⟨_, rfl, wf_filterQuery o hlc _ _, ?_⟩
